@@ -416,8 +416,10 @@ template <class G> struct Harness {
     }
 
     bool seqOnly = false;
+    std::set<int> shapesWanted;
     void all(bool coreOnly, int nThreads) {
         for (int shape = 0; shape < 4; ++shape) {
+            if (!shapesWanted.empty() && !shapesWanted.count(shape)) continue;
             // baseline on ANOTHER, identically built object; never on the shared one
             G base = makeShape<G>(shape);
             std::vector<std::string> baseline;
@@ -476,6 +478,8 @@ template <class G> int runOne(const std::string &name, const Args &args) {
             for (auto &x : v.second) printf("REPRODUCED %s: %s\n", x.signature.c_str(), x.detail.c_str());
         return rep.violations() ? 1 : 0;
     }
+    if (args.has("shapes"))
+        for (auto &t : split(args.get("shapes", ""), ',')) h.shapesWanted.insert(atoi(t.c_str()));
     h.seqOnly = args.has("seq");
     if (h.seqOnly) { rep.config += "/seq"; h.cfgName = rep.config; }
     h.all(args.has("core"), nThreads);
